@@ -31,6 +31,7 @@ def suites : List (String × (String → String → CaseResult)) :=
   [("values", ValuesSuite.runCase)] ++
   [("extcache", ExtCacheSuite.runCase)] ++
   [("regrewrite", RegRewriteSuite.runCase)] ++
+  [("printtokens", PrintTokensSuite.runCase)] ++
   []
 
 structure DAcc where
